@@ -48,6 +48,15 @@ CHECKS = {
         'note': TB + 'The parameter-free branch of each rule is the oracle for its boolean-variable branch. Not decided: Parity merge loop values, instantiation semantics, measurement circuits end to end.',
         'technique': 'symbolic effect summaries with pairing obligations, exact Q(omega)/Laurent-polynomial algebra over extracted scalar effects, constructor/recogniser evaluation on literals, sibling rules',
     },
+    'C11': {
+        'text': 'Static: is_identity establishes |in| = |out|, num_vertices = 2n and a plain edge between input i and output i (must-facts); the plug list is '
+                'indexed only under a dominating bound test; plug_input~plug_output and plug_inputs~plug_outputs agree under inputs<->outputs; symbolic effect '
+                'summaries of plug_vertex, the four plug functions, adjoint, to_adjoint, plug, append_graph and x_to_z equal their reference schemas (sqrt2^-1 per '
+                'plugged non-SKIP entry, both seam boundaries removed, scalar conjugated, old inputs/outputs exchanged); BasisElem::phase/is_z, EType::merge/opposite '
+                'tables evaluated on every variant; injective-copy edge idiom in subgraph/copy/append.',
+        'note': TB + 'Schemas in refs/effects_ref.py. Not decided: tensor equalities, cups/caps inside the plugged graph.',
+        'technique': 'must-fact contract, dominance rule for bound tests, sibling agreement on effect summaries, schema conformance, enum-function table evaluation',
+    },
     'C14': {
         'text': 'Static: the two QASM name tables are mutually inverse for every kind but UnknownGate and use the standard names; the arity table equals '
                 'the reference; the opaque prelude declares every gate name of the property with the arity of num_qubits() and a parameter exactly when '
